@@ -627,18 +627,33 @@ func (t *Target) gnmiRemove(n *pb.Notification) []*ctree.Leaf {
 		t.meta.ResetEntry(path[1])
 	}
 	var leaves []*ctree.Leaf
+	// Metadata leaves are not counted as target leaves when added, so they
+	// must not be counted when deleted either.
+	var deleted int64
 	f := func(v interface{}) {
 		d := v.(*pb.Notification)
 		leaves = append(leaves, ctree.DetachedLeaf(toDeleteNotification(d, n.GetTimestamp())))
+		if !isMeta(d) {
+			deleted++
+		}
 	}
 	t.t.WalkDeleted(path, func(v interface{}) bool { return v.(*pb.Notification).GetTimestamp() < n.GetTimestamp() }, f)
 	if len(leaves) == 0 {
 		return nil
 	}
-	deleted := int64(len(leaves))
 	t.meta.AddInt(metadata.LeafCount, -deleted)
 	t.meta.AddInt(metadata.DelCount, deleted)
 	return leaves
+}
+
+// isMeta reports whether the stored notification n is a metadata leaf.
+func isMeta(n *pb.Notification) bool {
+	var suffix *pb.Path
+	if !n.GetAtomic() && len(n.GetUpdate()) > 0 {
+		suffix = n.GetUpdate()[0].GetPath()
+	}
+	p := joinPrefixAndPath(n.GetPrefix(), suffix)
+	return len(p) > 0 && p[0] == metadata.Root
 }
 
 // updateCache calls fn for each Target.
